@@ -108,6 +108,11 @@ class PipeRelay(Relay):
         log.stdio(p, stdin, stdout, stderr)
         log.exit(p)
         if p.returncode != 0:
+            # raise_error() implementations work on text, the pipes give bytes
+            if isinstance(stdout, bytes):
+                stdout = stdout.decode('utf-8', 'replace')
+            if isinstance(stderr, bytes):
+                stderr = stderr.decode('utf-8', 'replace')
             try:
                 self.raise_error(p.returncode, stdout, stderr)
             except (PermanentRelayError, TransientRelayError) as exc:
@@ -169,8 +174,6 @@ class PipeRelay(Relay):
 
         """
         error_msg = stdout.rstrip() or stderr.rstrip() or 'Delivery failed'
-        if isinstance(error_msg, bytes):
-            error_msg = error_msg.decode('utf-8')
         if self._permanent_error_pattern.match(error_msg):
             reply = Reply('550', error_msg)
             raise PermanentRelayError(error_msg, reply)
